@@ -9,7 +9,7 @@ set_option linter.unusedVariables false
 set_option linter.unusedSimpArgs false
 
 namespace PyGql.Props.C09
-open PyGql.Exec
+open PyGql.AsyncExec
 
 private theorem denFlds_keys : ∀ (fs : Flds) (kvs : List (String × V)), denFlds fs = some kvs → kvs.map (·.1) = fs.keys
   | .nil, kvs, h => by simp [denFlds] at h; subst h; simp [Flds.keys]
@@ -112,7 +112,7 @@ def SerialOrderFull : Prop :=
     serial callback un-fired — the next field's resolver is not invoked and nothing is recorded by it;
     (2) the callback fires exactly when that node has finished, and a finished field node (executor
     built: `flat`) holds NO outstanding task — its whole sub-selection has completed;
-    (3) the next field is then taken from the head of `args`, i.e. document order.
+    (3) the callback then runs `_next` on `args`, whose head is the next field in document order.
     Missing w.r.t. `SerialOrderFull`: the transfer from tree states to positions in the event trace
     (checked by the correspondence on the traces of all schedules of every generated mutation). -/
 theorem serial_order_partial (path : Path) (key : String) (resolved : List (String × V)) (args : Flds)
@@ -121,28 +121,13 @@ theorem serial_order_partial (path : Path) (key : String) (resolved : List (Stri
         chainOnFinish applyCont src (.serialCb path key resolved args) s
           = (.chain src (.serialCb path key resolved args), s))
     ∧ (src.finished = true → flat src = true → tasks src = [])
-    ∧ (∀ v key' mode out rest, args = .cons key' mode out rest →
-        applyCont (.serialCb path key resolved args) (.ok (.data v)) s
-          = (match resolveField (path ++ [.key key']) mode out s with
-             | (.exc e, s1) => (.exc e, s1)
-             | (.ok (.val (.data v')), s1) => serialNext path (resolved ++ [(key, v)] ++ [(key', v')]) rest s1
-             | (.ok (.val _), s1) => (.ok (.val .junk), s1)
-             | (.ok n, s1) => (.ok (.chain n (.serialCb path key' (resolved ++ [(key, v)]) rest)), s1))) := by
+    ∧ (∀ v, applyCont (.serialCb path key resolved args) (.ok (.data v)) s
+          = serialNext path (resolved ++ [(key, v)]) args s) := by
   refine ⟨?_, ?_, ?_⟩
   · intro h; cases src <;> simp_all [chainOnFinish, Node.isPending, Node.finished]
   · intro hfin hflat
     rcases flat_finished src hflat hfin with ⟨x, rfl⟩ | ⟨x, rfl⟩ | ⟨e, rfl⟩ <;> simp [tasks]
-  · intro v key' mode out rest h
-    subst h
-    simp [applyCont, serialNext]
-    generalize resolveField _ mode out s = q
-    rcases q with ⟨r, s1⟩
-    cases r with
-    | exc e => rfl
-    | ok n =>
-      cases n with
-      | val x => cases x <;> rfl
-      | _ => rfl
+  · intro v; simp [applyCont]
 
 /-- **blocking_serial.** `BlockingExecutor.execute_fields_serially` is `execute_fields`: field `j+1` is
     resolved in exactly the state that the complete evaluation of field `j` (resolver and whole
